@@ -383,33 +383,89 @@ class _resolve_called_lambdas(ast.NodeTransformer):
     "Resolve any `(lambda x: x + 1)(y)` calls into just `y + 1`."
 
     def __init__(self):
-        self._arg_map_list = []
+        # Each frame maps a name to the expression that replaces it, or to `None` if the
+        # name is (re)bound by a lambda or comprehension inside the body being resolved.
+        self._arg_map_list: List[Dict[str, Optional[ast.AST]]] = []
+
+    @staticmethod
+    def _bound_names(node: ast.AST) -> set:
+        "All names bound by lambdas and comprehensions inside `node`"
+        names = set()
+        for n in ast.walk(node):
+            if isinstance(n, ast.Lambda):
+                names.update(a.arg for a in n.args.args)
+            elif isinstance(n, ast.comprehension):
+                names.update(t.id for t in ast.walk(n.target) if isinstance(t, ast.Name))
+        return names
 
     def visit_Call(self, node: ast.Call) -> Any:
         # Check if the function being called is a lambda
         if isinstance(node.func, ast.Lambda):
             lambda_node = node.func
 
-            # Ensure the lambda has arguments and a body
-            if len(lambda_node.args.args) == len(node.args):
-                arg_map = {
-                    lambda_node.args.args[i].arg: self.visit(node.args[i])
-                    for i in range(len(lambda_node.args.args))
-                }
-                self._arg_map_list.append(arg_map)
+            # Ensure the call is a plain positional one that matches the lambda's arguments
+            if len(lambda_node.args.args) == len(node.args) and len(node.keywords) == 0:
+                arg_values = [self.visit(a) for a in node.args]
 
-                result = self.generic_visit(lambda_node.body)
+                # First resolve everything inside the body, leaving this lambda's own
+                # arguments alone.
+                self._arg_map_list.append({a.arg: None for a in lambda_node.args.args})
+                body = self.visit(lambda_node.body)
                 self._arg_map_list.pop()
-                return result
+
+                # Substituting is only safe if no variable used in an argument would be
+                # captured by a lambda or comprehension that is still in the body. If that
+                # would happen leave the call in place - it means the same thing.
+                used = {n.id for a in arg_values for n in ast.walk(a) if isinstance(n, ast.Name)}
+                if len(used & self._bound_names(body)) == 0:
+                    arg_map: Dict[str, Optional[ast.AST]] = {
+                        lambda_node.args.args[i].arg: arg_values[i] for i in range(len(arg_values))
+                    }
+                    self._arg_map_list.append(arg_map)
+                    result = self.visit(body)
+                    self._arg_map_list.pop()
+                    return result
+                return ast.Call(
+                    func=ast.Lambda(args=lambda_node.args, body=body), args=arg_values, keywords=[]
+                )
+        return self.generic_visit(node)
+
+    def visit_Lambda(self, node: ast.Lambda) -> Any:
+        "A lambda's own arguments hide the arguments we are substituting"
+        self._arg_map_list.append({a.arg: None for a in node.args.args})
+        result = self.generic_visit(node)
+        self._arg_map_list.pop()
+        return result
+
+    def _visit_comprehension(self, node: Any) -> Any:
+        "The loop variables of a comprehension hide the arguments we are substituting"
+        frame: Dict[str, Optional[ast.AST]] = {}
+        self._arg_map_list.append(frame)
+        for g in node.generators:
+            g.iter = self.visit(g.iter)
+            frame.update({n.id: None for n in ast.walk(g.target) if isinstance(n, ast.Name)})
+            g.ifs = [self.visit(i) for i in g.ifs]
+        if isinstance(node, ast.DictComp):
+            node.key = self.visit(node.key)
+            node.value = self.visit(node.value)
         else:
-            return self.generic_visit(node)
+            node.elt = self.visit(node.elt)
+        self._arg_map_list.pop()
         return node
+
+    visit_ListComp = _visit_comprehension
+    visit_GeneratorExp = _visit_comprehension
+    visit_SetComp = _visit_comprehension
+    visit_DictComp = _visit_comprehension
 
     def visit_Name(self, node: ast.Name) -> Any:
         "Look through the arg map to see if it is a argument"
+        if not isinstance(node.ctx, ast.Load):
+            return node
         for arg_map in reversed(self._arg_map_list):
             if node.id in arg_map:
-                return arg_map[node.id]
+                replacement = arg_map[node.id]
+                return node if replacement is None else copy.deepcopy(replacement)
         return node
 
 
